@@ -899,7 +899,22 @@ class C11(SimSpec):
             s = sub_seed(seed, q, "C11squeue")
             rng = random.Random(s)
             sc = scenario.normalize(scenario.gen_scenario(rng, max_jobs=8, min_jobs=3, fail_p=0.3))
-            sc["faults"] = {"squeue_fail": rng.choice([0.15, 0.4, 0.7, 1.0]), "squeue_fail_budget": rng.choice([1, 3, 7, 8, 15, 30]), "max_recoveries": 12}
+            sc["faults"] = {"squeue_fail": rng.choice([0.3, 0.7, 1.0, 1.0]), "squeue_fail_budget": rng.choice([1, 3, 7, 8, 15, 30]), "max_recoveries": 12}
+            # several batches run concurrently and their jobs run long, so that a round is hit while other batches are alive
+            for j in sc["jobs"]:
+                if rng.random() < 0.6:
+                    j["blocked_by"] = []
+            for g in sc["groups"]:
+                g["time_based"] = False
+                g["batch"] = rng.randint(2, 4)
+            sc["max_nodes"] = rng.choice([None, None, 3])
+            sc["policy"]["finish_w"] = rng.choice([0.03, 0.1])
+            if q % 2 == 0:
+                # the failing query hits a user round that looks in while every batch is still running its last jobs
+                endgame(sc, rng, keep_dag=True)
+                sc["endgame_k"] = 99  # no stall: the round just runs into the failing scheduler
+                sc["faults"]["squeue_fail"] = 1.0
+                sc["faults"]["squeue_fail_budget"] = rng.choice([1, 6, 7, 7, 7, 14])
             sc["c11"] = True
             sc["user"] = {"try_submit": rng.choice([0, 1, 2]), "show_status": 0}
             sc["enum"] = {"base": f"sq{q}", "ord": -1, "ref": False, "kind": "squeue_transient"}
